@@ -18,6 +18,12 @@ pub enum Step {
     /// plus a sub-second part): the result must be the later instant when the time is repeated, the instant that
     /// closes the gap (exactly, no sub-second part) when it does not exist
     Map { local: i64, nanos: u32 },
+    /// a sun event of the day `day` days after the day of the injected jump (of `now` in a run without jump), at
+    /// coordinates (lat, lon) in 1e-4 degrees: its wall-clock time in the context zone (`Localize::event_time`
+    /// of a context with coordinates) must be the zone's wall clock at the event's absolute instant
+    /// (`Coordinates::event_time`, which knows no zone), whatever clock jump that day has; and `sunrise-sunset`
+    /// evaluated next to that instant must change state there. event: 0 dawn, 1 sunrise, 2 sunset, 3 dusk
+    Sun { day: i32, event: u8, lat: i32, lon: i32 },
     /// like Observe, with the window ending `delta` seconds after (before, if negative) the injected jump
     /// (falls back to a 60 s window when that end is not after `now` or the run has no jump)
     ObserveUntilJump { delta: i64, take: u32 },
